@@ -86,7 +86,14 @@ where
     F: Float,
 {
     let this_in = !event.is_in_out();
-    let that_in = !event.is_other_in_out();
+    // `this_in` is the state of the own operand just above the edge. For coincident edges the other
+    // operand changes across the very same edge, so its state above the edge follows from the
+    // transition type; `other_in_out` only describes its state below the edge.
+    let that_in = match event.get_edge_type() {
+        EdgeType::SameTransition => this_in,
+        EdgeType::DifferentTransition => !this_in,
+        _ => !event.is_other_in_out(),
+    };
     let is_in = match operation {
         Operation::Intersection => this_in && that_in,
         Operation::Union => this_in || that_in,
